@@ -65,6 +65,44 @@ type Pkg struct {
 	Dir   string `json:"dir"`  // relative to the module root; the last element is the package name
 	Kind  string `json:"kind"` // go | nogo | testonly | tagonly
 	Decls []Decl `json:"decls,omitempty"`
+	// Headers: comment written before the package clause, per file (a | b | tag | test):
+	// generated (standard "Code generated ... DO NOT EDIT." marker of another tool), mockery (the text
+	// mockery's own templates write), constraint (a satisfied //go:build line), license (block comment)
+	Headers map[string]string `json:"headers,omitempty"`
+}
+
+var headerKinds = []string{"generated", "mockery", "constraint", "license"}
+
+// files lists the Go files the package consists of, in a fixed order.
+func (p Pkg) files() []string {
+	has := map[string]bool{}
+	if p.Kind == "go" {
+		has["a"] = true
+	}
+	for _, d := range p.Decls {
+		has[d.File] = true
+	}
+	if p.Kind == "nogo" {
+		return nil
+	}
+	var out []string
+	for _, f := range []string{"a", "b", "tag", "test"} {
+		if has[f] {
+			out = append(out, f)
+		}
+	}
+	return out
+}
+
+// allGenerated reports whether every Go file of the package carries a "DO NOT EDIT" marker.
+func (p Pkg) allGenerated() bool {
+	fs := p.files()
+	for _, f := range fs {
+		if h := p.Headers[f]; h != "generated" && h != "mockery" {
+			return false
+		}
+	}
+	return len(fs) > 0
 }
 
 type Settings struct {
@@ -479,6 +517,33 @@ func gen(t *rapid.T) Case {
 		}
 		return out
 	}
+	// ---- header comments, drawn independently of everything else: they must not change what is mocked
+	for i := range c.Pkgs {
+		fs := c.Pkgs[i].files()
+		if len(fs) == 0 {
+			continue
+		}
+		mode := weighted(t, "hdr-mode", "none", 5, "independent", 5, "all-generated", 3, "all-mockery", 1)
+		if mode == "none" {
+			continue
+		}
+		c.Pkgs[i].Headers = map[string]string{}
+		for _, f := range fs {
+			switch mode {
+			case "all-generated":
+				c.Pkgs[i].Headers[f] = "generated"
+			case "all-mockery":
+				c.Pkgs[i].Headers[f] = "mockery"
+			default:
+				if h := weighted(t, "hdr", "", 3, "generated", 2, "mockery", 1, "constraint", 1, "license", 1); h != "" {
+					c.Pkgs[i].Headers[f] = h
+				}
+			}
+		}
+		if len(c.Pkgs[i].Headers) == 0 {
+			c.Pkgs[i].Headers = nil
+		}
+	}
 	var roots []string // packages with at least one package beneath them
 	for _, g := range goDirs {
 		if len(goDesc(g)) > 0 {
@@ -887,8 +952,22 @@ func (c *Case) render(root string) map[string]string {
 				body.WriteString(c.renderDecl(p.Dir, d, imports))
 			}
 			var sb strings.Builder
-			if f == "tag" {
+			hdr := p.Headers[f]
+			switch {
+			case f == "tag" && hdr == "constraint":
+				sb.WriteString("//go:build sometag && !c07neverset\n\n")
+			case f == "tag":
 				sb.WriteString("//go:build sometag\n\n")
+			case hdr == "constraint":
+				sb.WriteString("//go:build !c07neverset\n\n")
+			}
+			switch hdr {
+			case "generated":
+				sb.WriteString("// Code generated by protoc-gen-go-grpc. DO NOT EDIT.\n// versions:\n// - protoc v4.25.1\n// source: api.proto\n\n")
+			case "mockery":
+				sb.WriteString("// Code generated by mockery; DO NOT EDIT.\n// github.com/vektra/mockery\n// template: testify\n\n")
+			case "license":
+				sb.WriteString("/*\nCopyright 2024 The Authors.\n\nLicensed under the Apache License, Version 2.0 (the \"License\");\nyou may not use this file except in compliance with the License.\n*/\n\n")
 			}
 			fmt.Fprintf(&sb, "package %s\n", pkgName(p.Dir))
 			var imps []string
@@ -1551,6 +1630,11 @@ func (st *static) describe(w *world, di diffItem) string {
 		if pi.kind != "go" {
 			role += "(" + pi.kind + ")"
 		}
+		for _, p := range st.c.Pkgs {
+			if p.Dir == dir && p.allGenerated() {
+				role += "+all-files-marked-generated"
+			}
+		}
 	} else {
 		role = "unknown-package"
 	}
@@ -1742,6 +1826,26 @@ func (st *static) classify(ws []*world) (nonTrivial bool, classes []string) {
 	for _, p := range c.Pkgs {
 		pi := st.pkgs[p.Dir]
 		ps, configured := w.cfg[p.Dir]
+		for _, f := range p.files() {
+			if h := p.Headers[f]; h != "" {
+				add("hdr:" + h)
+			}
+		}
+		if p.allGenerated() {
+			role := "unconfigured"
+			if configured {
+				role = ps.role
+			} else if _, ex := w.excluded[p.Dir]; ex {
+				role = "excluded"
+			}
+			if p.Kind != "go" {
+				role += "(" + p.Kind + ")"
+			}
+			add("hdr:all-files-generated@" + role)
+			if configured && depth(p.Dir) >= 2 && strings.HasPrefix(ps.role, "discovered") {
+				add(fmt.Sprintf("hdr:all-files-generated@discovered-depth%d", depth(p.Dir)-1))
+			}
+		}
 		if recAbove(p.Dir) && p.Kind != "go" {
 			add("tree:" + p.Kind + "-dir-under-recursive")
 		}
